@@ -26,6 +26,10 @@ pub struct McInv {
     /// Duration flavours: 0 small, 1 largest fitting, 2 overflowing
     pub dur: u8,
     pub tags: Vec<(String, String)>,
+    /// the value expression itself sends a metric (through a macro for the macro call, explicitly
+    /// for the twin): macros must be usable from within their own argument expressions
+    #[serde(default)]
+    pub nested_arg: bool,
 }
 
 #[derive(Clone, Debug, Serialize, Deserialize)]
@@ -40,6 +44,10 @@ pub struct McCase {
     pub set_global: bool,
     pub second_set: bool,
     pub invocations: Vec<McInv>,
+    /// the error handler itself reports through a macro (a common "count dropped metrics" idiom):
+    /// a macro must be usable while another macro call is in flight on the same thread
+    #[serde(default)]
+    pub reentrant_handler: bool,
 }
 
 #[derive(Clone, Debug, Serialize, Deserialize, Default)]
@@ -78,7 +86,23 @@ impl MetricSink for Scripted {
     }
 }
 
+thread_local! {
+    static HANDLER_DEPTH: Cell<u32> = const { Cell::new(0) };
+}
+
+/// How a re-entrant handler reports: through the macro (global client) or explicitly on the twin.
+#[derive(Clone)]
+enum Reentry {
+    None,
+    ViaMacro,
+    ViaTwin(Arc<Mutex<Option<Arc<StatsdClient>>>>),
+}
+
 fn build_client(case: &McCase, logs: &Arc<Mutex<Logs>>) -> StatsdClient {
+    build_client_with(case, logs, Reentry::None)
+}
+
+fn build_client_with(case: &McCase, logs: &Arc<Mutex<Logs>>, reentry: Reentry) -> StatsdClient {
     let mut b = StatsdClient::builder(&case.prefix, Scripted { logs: logs.clone(), refuse: case.refuse.clone() });
     for (k, v) in &case.default_tags {
         b = match k {
@@ -92,6 +116,23 @@ fn build_client(case: &McCase, logs: &Arc<Mutex<Logs>>) -> StatsdClient {
             use std::error::Error;
             let src = e.source().map(|s| s.to_string()).unwrap_or_default();
             l.lock().unwrap().handler.push(format!("{:?}|{}|{}", e.kind(), e, src));
+            let depth = HANDLER_DEPTH.with(|d| d.get());
+            if depth == 0 {
+                HANDLER_DEPTH.with(|d| d.set(1));
+                match &reentry {
+                    Reentry::None => {}
+                    Reentry::ViaMacro => {
+                        cadence_macros::statsd_count!("handler.dropped", 1, "via" => "handler");
+                    }
+                    Reentry::ViaTwin(slot) => {
+                        let c = slot.lock().unwrap().clone();
+                        if let Some(c) = c {
+                            c.count_with_tags("handler.dropped", 1).with_tag("via", "handler").send();
+                        }
+                    }
+                }
+                HANDLER_DEPTH.with(|d| d.set(0));
+            }
         });
     }
     b.build()
@@ -130,11 +171,20 @@ fn invoke(inv: &McInv, twin: &StatsdClient, ev: &Counter2) {
                             },
                             {
                                 ev.val.set(ev.val.get() + 1);
+                                if inv.nested_arg {
+                                    cadence_macros::statsd_meter!("nested.arg", 7u64, "from" => "argument");
+                                }
                                 $val
                             }
                         );
                     }
-                    twin.$meth(k, $val).send();
+                    twin.$meth(k, {
+                        if inv.nested_arg {
+                            twin.meter_with_tags("nested.arg", 7u64).with_tag("from", "argument").send();
+                        }
+                        $val
+                    })
+                    .send();
                 }
                 1 => {
                     {
@@ -257,14 +307,19 @@ pub fn child_run(case: &McCase) -> ChildReport {
     let logs_a = Arc::new(Mutex::new(Logs { emits: Vec::new(), handler: Vec::new() }));
     let logs_b = Arc::new(Mutex::new(Logs { emits: Vec::new(), handler: Vec::new() }));
     let logs_t = Arc::new(Mutex::new(Logs { emits: Vec::new(), handler: Vec::new() }));
-    cadence_macros::set_global_default(build_client(case, &logs_a));
+    let reentry_a = if case.reentrant_handler { Reentry::ViaMacro } else { Reentry::None };
+    cadence_macros::set_global_default(build_client_with(case, &logs_a, reentry_a));
     if case.second_set {
         let mut other = case.clone();
         other.prefix = "second".into();
         cadence_macros::set_global_default(build_client(&other, &logs_b));
         rep.probes.push("second_set".into());
     }
-    let twin = build_client(case, &logs_t);
+    let twin_slot: Arc<Mutex<Option<Arc<StatsdClient>>>> = Arc::new(Mutex::new(None));
+    let reentry_t = if case.reentrant_handler { Reentry::ViaTwin(twin_slot.clone()) } else { Reentry::None };
+    let twin = Arc::new(build_client_with(case, &logs_t, reentry_t));
+    *twin_slot.lock().unwrap() = Some(twin.clone());
+    let twin: &StatsdClient = &twin;
     for (i, inv) in case.invocations.iter().enumerate() {
         let ev = Counter2 { key: Cell::new(0), val: Cell::new(0), tag: Cell::new(0) };
         let (a0, ah0, t0, th0) = {
@@ -272,7 +327,7 @@ pub fn child_run(case: &McCase) -> ChildReport {
             let t = logs_t.lock().unwrap();
             (a.emits.len(), a.handler.len(), t.emits.len(), t.handler.len())
         };
-        let r = catch_unwind(AssertUnwindSafe(|| invoke(inv, &twin, &ev)));
+        let r = catch_unwind(AssertUnwindSafe(|| invoke(inv, twin, &ev)));
         rep.calls += 1;
         let a = logs_a.lock().unwrap();
         let t = logs_t.lock().unwrap();
@@ -285,8 +340,14 @@ pub fn child_run(case: &McCase) -> ChildReport {
         }
         let ae = &a.emits[a0..];
         let te = &t.emits[t0..];
-        if ae.len() > 1 {
+        if ae.len() > 1 && !inv.nested_arg && !case.reentrant_handler {
             viol("macro.more-than-one-emit", format!("{what} handed the sink {} strings", ae.len()), &mut rep);
+        }
+        if inv.nested_arg && inv.n_tags == 0 {
+            rep.probes.push("nested_macro_in_argument".into());
+        }
+        if case.reentrant_handler && a.handler.len() > ah0 {
+            rep.probes.push("reentrant_handler_ran".into());
         }
         if ae != te {
             viol("macro.differs-from-explicit-call", format!("{what}: macro sent {ae:?}, the explicit tagged quiet call sent {te:?}"), &mut rep);
@@ -349,7 +410,7 @@ impl Engine for E7 {
     }
 
     fn required_probes(_focus: &str) -> &'static [&'static str] {
-        &["panicked_while_unset", "second_set", "sink_refused_via_macro", "invalid_value_via_macro"]
+        &["panicked_while_unset", "second_set", "sink_refused_via_macro", "invalid_value_via_macro", "nested_macro_in_argument", "reentrant_handler_ran"]
     }
 
     fn generate(rng: &mut Rng, _focus: &str, _tier: Tier) -> McCase {
@@ -377,12 +438,24 @@ impl Engine for E7 {
                 list_len: prog.usize_below(4),
                 dur: prog.weighted(&[60, 20, 20]) as u8,
                 tags: (0..3).map(|_| (hstr(&mut prog, 4), hstr(&mut prog, 4))).collect(),
+                nested_arg: n_tags == 0 && prog.chance(1, 4),
             });
         }
         let rate = *flt.pick(&[0u64, 20, 50, 100]);
         let refuse = (0..n).map(|_| flt.chance(rate, 100)).collect();
         let pre_unset = (0..cfg.usize_below(4)).map(|_| cfg.below(7) as u8).collect();
-        McCase { prefix, default_tags, handler: cfg.chance(3, 4), refuse, pre_unset, set_global: cfg.chance(19, 20), second_set: cfg.chance(1, 2), invocations }
+        let handler = cfg.chance(3, 4);
+        let reentrant_handler = handler && cfg.chance(1, 3);
+        // nested emits consume answers of the refusal script too: make it long enough
+        let refuse: Vec<bool> = {
+            let mut r: Vec<bool> = refuse;
+            let extra = 3 * n + 4;
+            for _ in 0..extra {
+                r.push(flt.chance(rate, 100));
+            }
+            r
+        };
+        McCase { prefix, default_tags, handler, refuse, pre_unset, set_global: cfg.chance(19, 20), second_set: cfg.chance(1, 2), invocations, reentrant_handler }
     }
 
     fn execute(case: &McCase, want_trace: bool) -> Outcome {
@@ -431,6 +504,8 @@ impl Engine for E7 {
                 "second_set" => "second_set",
                 "sink_refused_via_macro" => "sink_refused_via_macro",
                 "invalid_value_via_macro" => "invalid_value_via_macro",
+                "nested_macro_in_argument" => "nested_macro_in_argument",
+                "reentrant_handler_ran" => "reentrant_handler_ran",
                 _ => "other",
             };
             out.probe(name);
@@ -474,6 +549,18 @@ impl Engine for E7 {
             let mut c = case.clone();
             c.second_set = false;
             v.push(c);
+        }
+        if case.reentrant_handler {
+            let mut c = case.clone();
+            c.reentrant_handler = false;
+            v.push(c);
+        }
+        for i in 0..case.invocations.len() {
+            if case.invocations[i].nested_arg {
+                let mut c = case.clone();
+                c.invocations[i].nested_arg = false;
+                v.push(c);
+            }
         }
         if !case.default_tags.is_empty() {
             let mut c = case.clone();
